@@ -6,7 +6,7 @@ package transport
 
 //@ struct conn
 //@   lock Mutex level 60
-//@   guarded_by Mutex: open
+//@   guarded_by Mutex: open closed
 //@   immutable: c proto
 //@
 //@ struct connHandshaker
@@ -14,9 +14,6 @@ package transport
 //@   guarded_by Mutex: workq doneq closed
 //@   cond cv uses Mutex
 //@   immutable: cv
-//@
-//@ func (*conn).handshake
-//@   private
 //@
 //@ func (*conn).Recv
 //@   before call:NewMessage#1 assert sz == sbe64(p.c, old(rpos(p.c))) && sz >= 0 && (p.maxrx <= 0 || sz <= p.maxrx) && rpos(p.c) == old(rpos(p.c)) + 8
@@ -58,3 +55,12 @@ package transport
 //@ func (*conn).SetOption
 //@   requires n == mangos.OptionMaxRecvSize ==> is_int(v)
 //@   ensures n == mangos.OptionMaxRecvSize ==> p.maxrx == int_of(v)
+//@
+//@ func (*conn).Close
+//@   ghost was = p.closed at call:Lock#1
+//@   ensures p.closed
+//@   ensures !was ==> called("Close")
+//@
+//@ func (*connHandshaker).Close
+//@   loop 1 complete
+//@   ensures h.closed && len(h.doneq) == 0
